@@ -43,6 +43,20 @@ def run(chk):
         if not chk.expect_mc_ok(r, "TcpExporter/" + name, vacuity_exempt={"EmitAny", "WakeAny", "RxMetricId", "RxEndAny", "DriveWriteO"}):
             return
         chk.log("TLC %s: %d distinct states, depth %d" % (name, r["distinct"], r["depth"]))
+    # liveness: under fairness of the transport and of reading clients every queued frame is eventually written
+    for name, clients in ([("live1", "{2}")] + ([("live2", "{2,3}")] if thorough else [])):
+        c = cfg(name, spec="FairSpec", inv="TypeOK", Clients=clients, NEmit=2)
+        pth = os.path.join(vlib.SPECS, SPEC, c)
+        open(pth, "a").write("PROPERTIES Delivery\n")
+        r = vlib.tlc_mc(SPEC, "TcpExporter", c, workers=8, timeout=3600, coverage=False, tag=name)
+        if not r["ok"]:
+            p2 = chk.path("liveness.txt"); open(p2, "w").write(r["out"][-20000:])
+            chk.violation("TLC: Delivery (liveness) fails on the model: %s" % r["error"], replay_src=p2)
+            return
+        chk.cov["states"] += r["distinct"]; chk.cov["transitions"] += r["generated"]
+    r = vlib.tlc_mc(SPEC, "TcpExporter", "MC_live_wb.cfg", workers=8, timeout=900, coverage=False, tag="livewb")
+    if r["ok"]:
+        chk.tool_error("the liveness property is vacuous: the WouldBlock-dropping variant satisfies Delivery", r["out"][-2000:])
     # the model still separates the three repaired defects
     for nm, kw in (("wb", dict(FixWouldBlock="FALSE", NEmit=3)), ("dd", dict(FixDoubleDec="FALSE")),
                    ("unb", dict(FixUnbounded="FALSE", Unbounded="TRUE", Clients="{2}"))):
